@@ -203,6 +203,28 @@ async fn concurrent_scenario(dir: std::path::PathBuf, cfg: Cfg, seed: u64, limit
         }
         tap::set_faults(&dir, faults);
     }
+    // a third of the scenarios: one more client calls fsyncdata() now and then while the writers run, and blob
+    // syncs are slow (delay failpoint), so that writes are acknowledged while an explicit sync is in progress
+    let explicit_syncs = rng.chance(1, 3);
+    if explicit_syncs {
+        tap::set_faults(&dir, vec![tap::Fault { kinds: vec![tap::Kind::Sync], suffix: ".blob".into(), nth: 0, sticky: true, action: tap::Action::Delay(rng.range(2, 12)) }]);
+    }
+    let stop = std::sync::Arc::new(std::sync::atomic::AtomicBool::new(false));
+    let syncer = if explicit_syncs {
+        let (s2, stop2) = (s.clone(), stop.clone());
+        let mut r = Rng::new(crate::rng::mix(seed, 0xF5));
+        Some(tokio::spawn(async move {
+            let mut n = 0u64;
+            while !stop2.load(std::sync::atomic::Ordering::SeqCst) {
+                let _ = s2.fsyncdata().await;
+                n += 1;
+                tokio::time::sleep(std::time::Duration::from_micros(r.range(100, 4000))).await;
+            }
+            n
+        }))
+    } else {
+        None
+    };
     let tasks = rng.range(4, 24);
     let mut hs = Vec::new();
     for t in 0..tasks {
@@ -219,9 +241,21 @@ async fn concurrent_scenario(dir: std::path::PathBuf, cfg: Cfg, seed: u64, limit
             }
         }));
     }
+    // the explicit syncer stops (between two calls) BEFORE the last writers finish in half of these runs, after
+    // them in the other half
+    let stop_early = rng.chance(1, 2);
+    let mut explicit_calls = 0u64;
+    if stop_early {
+        stop.store(true, std::sync::atomic::Ordering::SeqCst);
+    }
     for h in hs {
         let _ = h.await;
     }
+    stop.store(true, std::sync::atomic::Ordering::SeqCst);
+    if let Some(h) = syncer {
+        explicit_calls = h.await.unwrap_or(0);
+    }
+    let _ = explicit_calls;
     // worker idle: every requested background sync has finished
     s.verif_barrier(true).await;
     s.verif_barrier(true).await;
